@@ -25,6 +25,8 @@ LEVEL_TEXT = ("every failure subset of the (realization, unperturbed|perturbatio
 LEVEL_NOTE = "trusted: reference gate in this file, C01/C02 value oracles; gradient values only judged under C02's conditioning premise; value comparison needs a positive-weight survivor"
 ANCHOR_FILES = ["src/ropt/ensemble_evaluator/_utils.py", "src/ropt/ensemble_evaluator/_evaluator_results.py", "src/ropt/ensemble_evaluator/_ensemble_evaluator.py",
                 "src/ropt/ensemble_evaluator/_function.py", "src/ropt/ensemble_evaluator/_gradient.py", "src/ropt/optimization/_optimizer.py"]
+EXECUTION_COUNTERS = ["flags_checked"]   # executions of the oracle inside the cases (reported as coverage.evaluations)
+CONTRACT_GROUPS = ['C03']   # icontract layer (vlib/contracts.py) active inside the workload and in the repository's own tests
 RULE = ("case = (R, P, variant, rmin, pmin, block of failure subsets); non-trivial sub-case = a subset with at least one failure in which results were judged; "
         "distinct key = (R,P,variant,rmin,pmin,subset) hashed per case block; counts in monitor_counters")
 ASSUMPTIONS = ["NaN rules apply to every evaluator call of a run (same failure pattern at every point)"]
